@@ -69,6 +69,9 @@ PROGS = {
                   'func handler(req http.Request, w *http.ResponseWriter) {\n'
                   '    fmt.Println("console output of the service")\n'
                   '    w.Write([]byte("first;"))\n    w.Write([]byte("second"))\n}\n', "/services/vf/p/twowrites"),
+    # registered at start-up, its file removed before the first request (the route outlives the program)
+    "deleted": ('@endpoint path="/services/vf/p/deleted"\nimport "http"\n'
+                'func handler(req http.Request, w *http.ResponseWriter) {\n    w.Write([]byte("still here"))\n}\n', "/services/vf/p/deleted"),
 }
 
 
@@ -278,6 +281,7 @@ class Fixture:
                     raise vf.NoVerdict("cannot log on as %s on the %s server\n%s" % (u, m, s.log_text()[-1200:]))
             return t
         self.tokens = self._each(logon)
+        os.remove(os.path.join(self.lib, "services", "vf", "p", "deleted.ego"))
         self.align()
 
     def session_of(self, s):
@@ -386,7 +390,7 @@ def select_cases(recs, thorough, rng):
     if thorough:
         cases += far
     else:
-        for fam, n in (("echo", 14), ("gen", 14)):
+        for fam, n in (("echo", 6), ("gen", 6)):
             pool = [c for c in far if c["fam"] == fam]
             cases += rng.sample(pool, min(n, len(pool)))
     return cases
@@ -428,7 +432,7 @@ def run():
         for label, rq in LIB:
             cases.append({"fam": "lib", "label": label, "c": {"label": label}, "rq": rq})
         for name, (_text, path) in sorted(PROGS.items()):
-            for acc in ("none", "json"):
+            for acc in ("none", "json") if name in ("compute", "deleted") else ("none",):
                 rq = dict(method="GET", path=path, headers=[("Accept", ACCEPT[acc])] if ACCEPT[acc] else [], body=None, auth=None)
                 cases.append({"fam": "prog", "label": "%s#%s" % (name, acc), "c": {"label": name}, "rq": rq})
         order = list(range(len(cases)))
@@ -495,7 +499,6 @@ def run():
         if agree:
             def perturbed(r, tag, field, modes):
                 q = json.loads(json.dumps(r))
-                q["id"] = len(log) + len(expect) + 1
                 q["selftest"] = tag
                 for m in modes:
                     q[m][field] = q[m][field] + "~"
@@ -508,7 +511,8 @@ def run():
             for q, suffix, field in ((perturbed(r1, "status/both", "status", ("pipe", "file")), "", "status"),
                                      (perturbed(r2, "header/file", hdr, ("file",)), "@file", hdr),
                                      (perturbed(r1, "body/pipe", bodyf, ("pipe",)), "@pipe", bodyf)):
-                expect[len(log) + len(expect) + 1] = (q["selftest"], field, suffix)
+                q["id"] = len(log) + 1
+                expect[q["id"]] = (q["selftest"], field, suffix)
                 log.append(q)
         io = vf.write_ndjson(os.path.join(sd, "io.ndjson"), log)
         nrec, bad = vf.fio_validate(chk, SPEC, "ChildService_Trace", "ChildService_Trace.cfg", sd, io, name="contract over the logged triples",
